@@ -142,6 +142,19 @@ theorem C07_child_alone (cfg : Cfg) (c : Node) (hwf : WF c) (hone : AtMostOne cf
     obtain ⟨q, e⟩ := obs_paths_below _ [] r hr
     exact ⟨q, by simpa [Core.forState] using e⟩
 
+/-! ## loading in place -/
+
+/-- a child of any composite that saves its state and loads it again IN PLACE (`child.save()` …
+`child.load()`, or a child constructed with `parent=…, autoload=…`): with the repaired `Node.load`
+(`keepPlace`) the parent shows exactly what it showed — the child is still its child, still connected
+and linked as before -/
+theorem C07_load_in_place (cfg : Cfg) (c : Core) (ch : List Node) (dg sg : CG) (l : Lbl) (child : Node)
+    (hnd : (childLabels ch).Nodup) (hf : ch.find? (fun x => decide (x.core.label = l)) = some child)
+    (hwf : WF child) (hdet : child.core.detached = none) (hone : AtMostOne cfg child)
+    (hset : cfg.anyPush = true → Settled child) (pp : Option Path) :
+    ∃ g', loadInPlace cfg true pp (.mk c ch dg sg) l = .ok g' ∧ ∀ p, obs p g' = obs p (.mk c ch dg sg) :=
+  loadInPlace_keeps cfg c ch dg sg l child hnd hf hwf hdet hone hset pp
+
 /-! ## running again -/
 
 /-- what a later run reads is the same: the scheduler graph of every composite (who fires whom in
@@ -363,6 +376,21 @@ theorem C07_cached_io_view_drops_link :
     (match loadViewed Cfg.repaired [] w8 with
      | .ok g => some (obs [] g) | .error _ => none) = some (obs [] w8) := by decide
 
+/-- KF-C07-9: `c.load()` in place in workflow w1 with the unrepaired `Node.load`: the child comes back
+with the detached path of a node that has no parent (while `w` still lists it), its own connection
+list is empty, but `a.o` and `b.o` still list it — the connection graph is no longer mutual; with
+`keepPlace` the workflow shows what it showed -/
+def inPlaceRead {α} (keep : Bool) (f : Node → α) : Option α :=
+  match loadInPlace Cfg.repaired keep none w1 3 with
+  | .ok g => some (f g)
+  | .error _ => none
+
+theorem C07_load_in_place_orphans :
+    inPlaceRead false (fun g => g.data.inl (3, 0)) = some [] ∧
+    inPlaceRead false (fun g => g.data.outl (1, 0)) = some [(3, 0)] ∧
+    inPlaceRead false (fun g => g.children.map fun x => x.core.detached.isSome) = some [false, false, true] ∧
+    inPlaceRead false (obs []) ≠ some (obs [] w1) ∧ inPlaceRead true (obs []) = some (obs [] w1) := by decide
+
 /-- non-vacuity of the partial statement on the pinned code: a nested graph (workflow ⊃ macro with
 value links ⊃ leaves) in a partly run, partly failed state with `NOT_DATA`, executor instructions
 and single connections satisfies its hypotheses and round-trips through both back ends -/
@@ -456,3 +484,5 @@ end PwVerif.C07
 #print axioms PwVerif.C07.C07_foreign_connection_dropped
 #print axioms PwVerif.C07.C07_loaded_macro_not_resavable
 #print axioms PwVerif.C07.C07_cached_io_view_drops_link
+#print axioms PwVerif.C07.C07_load_in_place
+#print axioms PwVerif.C07.C07_load_in_place_orphans
